@@ -132,6 +132,7 @@ class Loop(object):
         self.iters = []
         self.stages = []        # lazy adaptors peeled off the source: (name, callable term)
         self.enumerated = False
+        self.counter_key = None
 
     def __repr__(self):
         return "<Loop %s %s over %s (%d ways)>" % (self.kind, self.id[-1:], (self.source or ("?",))[:2], len(self.iters))
@@ -1066,6 +1067,7 @@ class Evaluator(object):
                 if not ok:
                     continue
                 L.kind = "counter"
+                L.counter_key = k
                 L.elem = lv if up else ("countdown", L.id)
                 L.source = L.raw_source = ("agg", "adt", "std::ops::Range::Range", ((init, other) if up else (("int", 0), init)), ("start", "end"))
                 L.iter_ty = "std::ops::Range<usize>"
